@@ -819,6 +819,13 @@ class Interp:
             if isinstance(a0, Lst):
                 return a0.e if a0.e is not None else INV
             return a0 if a0 is not None else INV
+        if short == "count_nonzero":
+            # a count of non-zero entries: unit-free only for masks and
+            # unit-free data (x != 0 is scale invariant for S(k, 0) too)
+            if isinstance(a0, S) and a0.c != 0:
+                return Err(f"`{norm(n)[:60]}`: zero test of offset-carrying "
+                           f"{a0}", n)
+            return INV
         if short in INV_RESULT or cn in INV_RESULT:
             return INV
         if short in ("add", "valuesdict", "guess", "fit", "eval", "get",
